@@ -180,7 +180,11 @@ impl World {
         }
     }
 
-    fn record(&self, r: &mut BatchResult, call: u64, entry: usize, out: entries::CallOut, baselines: &[&Res], class: &str) {
+    /// `cheap`: the value digest was not computed for this call, so a returned
+    /// value cannot be compared with the unfaulted one; it is then counted as
+    /// "differs" only if the unfaulted outcome was not a value.
+    #[allow(clippy::too_many_arguments)]
+    fn record(&self, r: &mut BatchResult, call: u64, entry: usize, out: entries::CallOut, baselines: &[&Res], class: &str, cheap: bool) {
         let st = r.per_entry.entry(entry).or_default();
         if out.res == Res::Skip {
             st.skip += 1;
@@ -189,7 +193,8 @@ impl World {
         r.evaluated += 1;
         *r.by_class.entry(class.to_string()).or_default() += 1;
         st.calls += 1;
-        if baselines.iter().all(|b| b.key() != out.res.key()) {
+        let same = |b: &&Res| if cheap && matches!(out.res, Res::Ok(_)) { matches!(b, Res::Ok(_)) } else { b.key() == out.res.key() };
+        if !baselines.iter().any(same) {
             st.nontrivial += 1;
         }
         match &out.res {
@@ -228,12 +233,15 @@ impl World {
         match u {
             Unit::Single(s) => {
                 let seed = &self.seeds[*s];
-                let cheap = Self::cheap(seed);
                 let plan: Plan = self.tuning.plan(seed);
+                if plan.offsets.is_empty() {
+                    return r;
+                }
+                let mut cheap = false;
                 let e = seed.entries.len() as u64;
                 let slots = plan.slots() as u64;
                 journal(u64::MAX - 2);
-                let base: Vec<Res> = seed.entries.iter().map(|&id| (self.cat[id].call)(&seed.bytes, cheap).res).collect();
+                let base: Vec<Res> = seed.entries.iter().map(|&id| (self.cat[id].call)(&seed.bytes, false).res).collect();
                 let mut cur_oi = usize::MAX;
                 let mut fl: Vec<Option<Fault>> = vec![];
                 let mut cur_f = u64::MAX;
@@ -247,6 +255,7 @@ impl World {
                         if oi != cur_oi {
                             cur_oi = oi;
                             fl = plan.faults_at(&seed.bytes, oi);
+                            cheap = !plan.digest[oi];
                         }
                         let fault = &fl[(f % slots) as usize];
                         input = fault.as_ref().map(|x| x.apply(&seed.bytes));
@@ -272,12 +281,13 @@ impl World {
                     let id = seed.entries[ei];
                     journal(c);
                     let out = (self.cat[id].call)(inp, cheap);
-                    self.record(&mut r, c, id, out, &[&base[ei]], class);
+                    self.record(&mut r, c, id, out, &[&base[ei]], class, cheap);
                 }
             }
             Unit::Splice(a, b) => {
                 let (sa, sb) = (&self.seeds[*a], &self.seeds[*b]);
-                let cheap = Self::cheap(sa) || Self::cheap(sb);
+                // Debug rendering of a > 4 KiB message per splice would dominate
+                let cheap = sa.family.starts_with("msg:") && (Self::cheap(sa) || Self::cheap(sb));
                 let (ca, cb) = (self.splice_cuts(*a), self.splice_cuts(*b));
                 let e = sa.entries.len() as u64;
                 journal(u64::MAX - 2);
@@ -298,7 +308,7 @@ impl World {
                     let id = sa.entries[ei];
                     journal(c);
                     let out = (self.cat[id].call)(&input, cheap);
-                    self.record(&mut r, c, id, out, &[&base_a[ei], &base_b[ei]], "splice");
+                    self.record(&mut r, c, id, out, &[&base_a[ei], &base_b[ei]], "splice", cheap);
                 }
             }
             Unit::Short(id) => {
@@ -308,7 +318,7 @@ impl World {
                     let inp = faults::short_string(c);
                     journal(c);
                     let out = (self.cat[*id].call)(&inp, false);
-                    self.record(&mut r, c, *id, out, &[&base], "short-string");
+                    self.record(&mut r, c, *id, out, &[&base], "short-string", false);
                 }
             }
         }
